@@ -4,7 +4,17 @@
    for the legacy container operations, for every array length and canonical token and both
    settings of the SupportNegativeIndices package variable.  The whole-patch refinement against
    Rfc6902.rfc_apply (up to member order) is proved in V4ApplySim.v (the legacy counterpart of
-   ApplySim.v) and restated in the second half of this file. *)
+   ApplySim.v) and restated in the second half of this file.
+   DOMAIN RESTRICTION of the byte-level simulation theorems (C18_apply_refines_rfc and those after it,
+   C18_step, C18_apply_patch through sgood4 / op_dom4): EVERY string of the document (tplain) and of
+   every operation value (raw4, in val_good4) is spelled escape-free: no backslash, valid UTF-8, and
+   none of the characters the legacy encoder rewrites (less-than, greater-than, ampersand, U+2028,
+   U+2029).  The legacy test operation and deepCopy compare and re-encode SPELLINGS, so outside this
+   set the legacy result can differ from RFC 6902's (C19_Equal_compares_spellings shows it for Equal).
+   This is NARROWER than the property's wording, which only sets aside "strings compared by test
+   operations": here all strings are restricted, also those no test touches.  The index theorems of
+   the first half, C18_first_failure, the totality statements of C04 and the output theorems
+   C18_step_keeps_tokens / C18_output_general carry no such restriction. *)
 From JP Require Import Bytes Json Text Strings Den Pointer Rfc6902 ImplV5 ImplV4 ImplFacts.
 
 Theorem C18_get_index : forall g (ns : list node) t,
@@ -419,3 +429,38 @@ Example C18_nonvacuous :
   | None => False
   end.
 Proof. vm_compute. reflexivity. Qed.
+
+(* ---- the main theorems applied.  C18_sim_nonvacuous above applies C18_apply_refines_rfc and
+   C18_output_nonvacuous applies C18_apply_output_rfc; here every hypothesis of C18_apply_output_bytes (the
+   strongest byte-level statement: value equal up to member order AND no repeated name in what is read back)
+   is discharged on the same document and seven-operation patch (all six kinds, a negative index, "-", a
+   test of an absent member, a copy of a parsed object), indent of two spaces; the reference run is Done,
+   its result nests 3 deep. ---- *)
+Definition C18_ex_result : ojson :=
+  den (match parse (B "{""a"":{""x"":""hi""},""b"":[7,2],""c"":{""y"":1,""x"":""hi""},""z"":1}") with Some t => t | None => TNull end).
+
+Example C18_main_theorem_applies :
+  exists out t', api_apply4 (mkOpts4 true 0 None) (B "  ") C18_exp C18_exdoc = Out4 out /\ parse out = Some t' /\
+                 jeq (den t') C18_ex_result = true /\ onodup (den t') = true /\ valid_gen out = true /\
+    exists out0, api_apply4 (mkOpts4 true 0 None) [] C18_exp C18_exdoc = Out4 out0 /\ indent_go (B "  ") out0 = Some out.
+Proof.
+  pose proof (C18_apply_output_bytes (mkOpts4 true 0 None) (B "  ") C18_exp C18_exdoc C18_ext) as H.
+  assert (R : rfc_apply (d4 (mkOpts4 true 0 None)) (den C18_ext) (map den_op C18_exp) = Done C18_ex_result)
+    by (vm_compute; reflexivity).
+  rewrite R in H.
+  destruct H as [out [t' [H1 [H2 [H3 [H4 [H5 H6]]]]]]].
+  - reflexivity.
+  - vm_compute; reflexivity.
+  - reflexivity.
+  - vm_compute; reflexivity.
+  - vm_compute; repeat split.
+  - vm_compute; repeat split; utf8_ascii.
+  - exact C18_ex_dom.
+  - apply (C18_decoded_patch_tokens C18_expatch). vm_compute. reflexivity.
+  - vm_compute; reflexivity.
+  - reflexivity.
+  - vm_compute. discriminate.
+  - exists out, t'. split; [exact H1|]. split; [exact H2|]. split; [exact H3|]. split; [exact H4|]. split; [exact H5|].
+    apply H6. discriminate.
+Qed.
+Print Assumptions C18_main_theorem_applies.
